@@ -114,7 +114,8 @@ def inner_value(rng, inners, depth=0):
     if rng.random() < 0.4:
         kw['anyv'] = lit(rng, 1) if depth or rng.random() < 0.6 else inner_value(rng, inners, depth + 1)
     if rng.random() < 0.25:
-        kw['name'] = rng.choice(['named', 'Inner', 'x1', cls.__name__ + 'x', cls.__name__ + '12 (copy)', cls.__name__ + '_7'])
+        kw['name'] = rng.choice(['named', 'Inner', 'x1', cls.__name__ + 'x', cls.__name__ + '12 (copy)', cls.__name__ + '_7',
+                                 cls.__name__ + '00042_copy', cls.__name__ + '00007.1', cls.__name__ + '123456'])
     return cls(**kw)
 
 
@@ -296,7 +297,8 @@ def run_case(idx, rng, P, rep):
                 else:
                     kw[s['name']] = gen_value(rng, s['ptype'], inners, s)
         if shape != 'named' and rng.random() < 0.3:
-            kw['name'] = rng.choice(['explicit', cname, 'Outer', cname + '1x', cname + '12_copy', cname + '3 (2)', 'n0'])
+            kw['name'] = rng.choice(['explicit', cname, 'Outer', cname + '1x', cname + '12_copy', cname + '3 (2)', 'n0',
+                                     cname + '00042_copy', cname + '00007-b', cname + '000011', cname + '0001'])
         try:
             obj = cls(**kw)
         except Exception as e:   # noqa: BLE001
